@@ -41,4 +41,12 @@ TEXT["C06"] = {
     "note": _TB + "moka/lru internals abstracted to get/insert/evict-some; thread-local caches are exercised on the calling thread.",
     "technique": "Lean 4 invariant proof over a cache state machine with arbitrary eviction + differential read sequences over all routes",
 }
+TEXT["C19"] = {
+    "level": "Machine-checked proof, for any number of threads, writers and placements, that a writer-preferring reader-writer lock never deadlocks and always lets every thread finish when no "
+             "thread acquires while holding (flat traces), that a nested read acquisition does deadlock against one writer (explicit witness), and that hook H3's probe trace is all-free iff the "
+             "operation's trace is flat; the hypothesis 'every public operation's trace is flat' is monitored on the real code: each enumerated operation x configuration runs on a single call stack "
+             "with the probe recording every acquisition of the configuration lock.",
+    "note": _TB + "Partial: std RwLock semantics (writer preference) are modelled, not verified; an operation the harness does not enumerate is not covered; real blocking is not exhibited by the model, the probe turns it into a deterministic report.",
+    "technique": "Lean 4 deadlock-freedom proof for flat lock traces + monitored flatness of every enumerated operation via a try_write probe hook",
+}
 NOT_YET = {}
